@@ -251,6 +251,59 @@ def rot3(p, res):
     return n
 
 
+def ret1(p, res):
+    """typestate of the blind retriever: `flush` hands out the result and leaves the object empty - on every returning path it passes through a full reset (a loop over the whole
+    `accumulators` vector storing 0 into every `num`, and `counter = 0`).  An accumulator that keeps `num != 0` makes the next batch select against the previous batch's data."""
+    from .cfg import CFG, Flow
+    from . import sc
+    fns = [f for f in p.lib_fns() if f.blocks and not f.is_test() and "blind_retrieval" in f.uid and "GLWEBlindRetriever" in f.pretty]
+
+    def zero_store(st, field):
+        return st[0] == "A" and any(isinstance(e, list) and e[0] == "f" and e[-1] == field for e in st[1][1:]) and st[2]["k"] == "Use" and st[2]["o"][0][0] == "k" and st[2]["o"][0][1].get("v") == 0
+
+    def full_reset(f):
+        g = CFG(f)
+        flow = Flow(f, transparent=("deref_mut", "deref", "iter_mut", "into_iter", "as_mut_slice", "as_mut"))
+        loop_ok = False
+        hdrs = set()
+        for l in g.loops():
+            nx = [b for b in l["body"] if f.blocks[b]["t"] and f.blocks[b]["t"]["k"] == "Call" and (f.callee_def(f.blocks[b]["t"]) or {}).get("n") == "next"]
+            if not nx:
+                continue
+            whole = any(r[0] == "param" and r[1] == 1 and r[2] and r[2][-1] == "accumulators" for r in flow.op_roots(f.blocks[nx[0]]["t"]["a"][0]))
+            narrowed = False  # an adaptor or a sub-slice between the vector and the loop would be the root instead of the field
+            if whole and not narrowed and any(zero_store(st, "num") for b in l["body"] for st in f.blocks[b]["s"]):
+                loop_ok = True
+                hdrs.add(l["header"])
+        counter_ok = any(zero_store(st, "counter") for blk in f.blocks for st in blk["s"])
+        inline[f.uid] = (hdrs, {bi for bi, blk in enumerate(f.blocks) if any(zero_store(st, "counter") for st in blk["s"])})
+        return loop_ok and counter_ok
+    inline = {}
+    resets = {f.uid for f in fns if full_reset(f)}
+    n = 0
+    for f in sorted(fns, key=lambda x: x.uid):
+        if f.name != "flush":
+            continue
+        n += 1
+        if not resets:
+            res.bad("RET-1", f.pretty, "no-full-reset", "no method of the retriever stores 0 into every accumulator's `num` and into `counter`: nothing can leave the object empty", site=f.where())
+            continue
+        g = CFG(f)
+        hits = {bi for bi, t in f.calls() if any(u in resets for u in p.targets(f, t))}
+        paths = sc.returning_paths(f, g, cap=400) or []
+        if not paths:
+            res.undec("RET-1", "%s: paths not enumerable" % f.pretty)
+            continue
+        ih, ic = inline.get(f.uid, (set(), set()))
+        miss = [pa for pa in paths if not any(b in hits for b in pa) and not (any(b in ih for b in pa) and any(b in ic for b in pa))]
+        if miss:
+            res.bad("RET-1", f.pretty, "flush-without-reset", "%s returns on a path that does not pass through a full reset of the accumulators (`num = 0` for every accumulator, `counter = 0`): "
+                    "a level that received a single carry keeps `num == 1` and the next batch is selected against this batch's data" % f.pretty, site=f.where())
+        else:
+            res.ok("RET-1", {"fn": f.pretty, "paths": len(paths), "reset": sorted(resets)})
+    return n
+
+
 def run(res, tier):
     from . import c13, c20
     res_level = "other"
@@ -266,6 +319,7 @@ def run(res, tier):
     res.rule("DSZ-1", "a function that places row gadgets of a matrix ciphertext from its base2k() and dnum() reads its dsize()")
     res.rule("BIT-3", "blind retrieval butterflies: the stage of distance 2^e is controlled by stored bit bit_rsh + e (forward and reverse networks)")
     res.rule("ROT-3", "an in-place rotation of an object that lives across the iterations of a loop takes a loop-invariant exponent (in-place rotations accumulate)")
+    res.rule("RET-1", "the blind retriever's flush passes through a full reset (every accumulator's num, the counter) on every returning path")
     res.rule("THR-4", "exact partition of the work items of the multi-threaded evaluators")
     res.rule("THR-6", "window parameters keep their role across forwarding calls")
     res.rule("THR-7", "an empty set of work items is handled")
@@ -281,6 +335,8 @@ def run(res, tier):
         res.floor("BIT-3", "blind retrieval butterfly networks", n3, 2)
         nr3 = rot3(p, res)
         res.floor("ROT-3", "in-place rotations of loop-carried objects", nr3, 2)
+        nr1 = ret1(p, res)
+        res.floor("RET-1", "flush methods of the blind retriever", nr1, 1)
         c20.thr4(p, res)
         n6 = c20.thr6(p, res)
         res.floor("THR-6", "window arguments forwarded by name", n6, 4)
